@@ -31,6 +31,44 @@ THEOREMS_ABS = ['RB.Sched.c11_schedule_independent_abstract', 'RB.Sched.c11_sche
 OK = {'rc': 0, 'dps': 1}
 
 
+def add_builds(rng, scn):
+    """executor builds (shared by all runs of the executor) and suite builds (private to a run), some failing"""
+    runs = scn['runs']
+    fail = {}
+    exes = sorted(set(r['exe'] for r in runs))
+    for x in exes:
+        if rng.random() < 0.5:
+            for r in runs:
+                if r['exe'] == x:
+                    r['ebuild'] = x
+            if rng.random() < 0.4:
+                fail['e%d' % x] = 1
+    for i, r in enumerate(runs):
+        if rng.random() < 0.3:
+            r['sbuild'] = i
+            if rng.random() < 0.4:
+                fail['s%d' % i] = 1
+    if not fail and rng.random() < 0.5:
+        # make sure failing builds are common: fail one that exists, or add a failing private one
+        i = rng.randrange(len(runs))
+        if runs[i].get('ebuild') is not None and rng.random() < 0.5:
+            fail['e%d' % runs[i]['ebuild']] = 1
+        else:
+            runs[i]['sbuild'] = i
+            fail['s%d' % i] = 1
+    scn['fail_builds'] = fail
+    return scn
+
+
+def build_failed_runs(scn):
+    fb = scn.get('fail_builds') or {}
+    out = set()
+    for i, r in enumerate(scn['runs']):
+        if (r.get('ebuild') is not None and 'e%d' % r['ebuild'] in fb) or (r.get('sbuild') is not None and 's%d' % r['sbuild'] in fb):
+            out.add(i)
+    return out
+
+
 def gen_scenario(rng, n_min, n_max, parallel, with_127):
     n = rng.randint(n_min, n_max)
     n_exe = rng.choice([1, 2, n])
@@ -132,7 +170,7 @@ def sequential_scenario(ck, scn, scripts, seeds, tag):
     ref = None
     for sched, choices in plans:
         wd = c04._mkwd(ck)
-        sess = {'sched': sched, 'choices': choices, 'scripts': scripts, 'cpu': 1}
+        sess = {'sched': sched, 'choices': choices, 'scripts': scripts, 'cpu': 1, 'builds': scn.get('fail_builds') or {}}
         inp = {'kind': 'sequential', 'scn': scn, 'scripts': scripts, 'sched': sched, 'choices': choices}
         obs = ds.run_session(wd, scn, sess)
         ck.impl_traces += 1
@@ -154,18 +192,20 @@ def sequential_scenario(ck, scn, scripts, seeds, tag):
 
 
 # ------------------------------------------------------------------ parallel scheduler, controlled
-def parallel_scenario(ck, scn, scripts, cpu, schedules, tag, ref=None):
+def parallel_scenario(ck, scn, scripts, cpu, schedules, tag, ref=None, local='batch'):
     n127 = has_127(scripts)
+    bf = build_failed_runs(scn)
     if ref is None:
         wd = c04._mkwd(ck)
-        ref = ds.run_session(wd, scn, {'sched': 'batch', 'scripts': scripts, 'cpu': 1})
+        ref = ds.run_session(wd, scn, {'sched': 'batch', 'scripts': scripts, 'cpu': 1, 'builds': scn.get('fail_builds') or {}})
         ck.impl_traces += 1
         if not session_ok(ck, {'kind': 'parallel-ref', 'scn': scn, 'scripts': scripts}, ref):
             return
     for schedule in schedules:
         wd = c04._mkwd(ck)
-        sess = {'sched': 'batch', 'scripts': scripts, 'cpu': cpu, 'schedule': schedule}
-        inp = {'kind': 'parallel', 'scn': scn, 'scripts': scripts, 'cpu': cpu, 'schedule': schedule}
+        sess = {'sched': local, 'scripts': scripts, 'cpu': cpu, 'schedule': schedule, 'builds': scn.get('fail_builds') or {},
+                'choices': [ck.rng.randrange(64) for _ in range(160)] if local == 'random' else []}
+        inp = {'kind': 'parallel', 'scn': scn, 'scripts': scripts, 'cpu': cpu, 'schedule': schedule, 'local': local}
         obs = ds.run_session(wd, scn, sess)
         ck.impl_traces += 1
         if not session_ok(ck, inp, obs):
@@ -175,19 +215,47 @@ def parallel_scenario(ck, scn, scripts, cpu, schedules, tag, ref=None):
         ck.case(nontrivial_key=(tag, json.dumps(scn, sort_keys=True), cpu, str(schedule)),
                 sample={'runs': len(scn['runs']), 'T': obs.get('T'), 'steps': obs['steps'][:10]})
         compare_with_batch(ck, inp, ref, obs, 'parallel', n127)
+        check_chunks(ck, inp, scn, obs, cpu)
         if not n127:
             picks = [st[1] for st in obs['steps']]
             op = c04.session_op('c11.exec', scn, sess, obs['order'])
             op['picks'] = picks
-            op['active'] = [i for i in obs['order'] if obs['loaded'][i][0] < scn['runs'][i]['N']]
-            c04.queue_of(ck).add(op, lambda ans, inp=inp, obs=obs: compare_exec(ck, inp, obs, ans))
+            # runs whose build fails never start a process: the half-step system (no builds) is not asked about them
+            op['active'] = [i for i in obs['order'] if obs['loaded'][i][0] < scn['runs'][i]['N'] and i not in bf]
+            c04.queue_of(ck).add(op, lambda ans, inp=inp, obs=obs: compare_exec(ck, inp, obs, ans, bf))
 
 
-def compare_exec(ck, inp, obs, ans):
+def check_chunks(ck, inp, scn, obs, cpu):
+    """work distribution: what acquire_work handed out vs RB.Sched.handout; every non-exclusive run exactly once"""
+    if obs.get('chunks') is None:
+        return
+    # the parallel scheduler is only selected with more than one core and more than one non-exclusive run
+    if cpu <= 1 or sum(1 for r in scn['runs'] if not r.get('excl', True)) <= 1:
+        ck.count('parallel-scheduler-not-selected')
+        return
+    par = [i for i in obs['order'] if not scn['runs'][i].get('excl', True)
+           and obs['loaded'][i][0] < scn['runs'][i]['N']]
+    handed = sorted(i for c in obs['chunks'] for i in c)
+    ck.count('chunks:%d' % len(obs['chunks']))
+    if handed != sorted(par):
+        ck.oracle_fail('every_run_handed_to_one_worker', inp,
+                       {'non_exclusive_runs': par, 'chunks': obs['chunks'], 'worker_threads': obs.get('T')},
+                       signature={'cpu_count': cpu, 'nothing_handed_out': not obs['chunks']})
+    op = {'op': 'c11.chunks', 'cpu': cpu, 'remaining': par}
+
+    def cmp(ans, obs=obs):
+        if ans['chunks'] != obs['chunks']:
+            ck.disagree('c11.chunks: ParallelScheduler.acquire_work vs RB.Sched.handout', inp,
+                        {'chunks': obs['chunks'], 'T': obs.get('T')}, ans,
+                        ['RB.Sched.c11_every_run_handed_out', 'RB.Sched.c11_chunks_partition'])
+    c04.queue_of(ck).add(op, cmp)
+
+
+def compare_exec(ck, inp, obs, ans, skip=()):
     m_starts, m_records, _b = c04.model_views(ans)
     i_starts = [[st[1], st[2]] for st in obs['steps'] if st[0] == 'start']
     _s, i_records, _b2 = c04.impl_views(obs)
-    impl_fin = {int(i): {k: f[k] for k in c04.FIN_KEYS} for i, f in obs['final'].items()}
+    impl_fin = {int(i): {k: f[k] for k in c04.FIN_KEYS} for i, f in obs['final'].items() if int(i) not in skip}
     model_fin = {i: {k: f[k] for k in c04.FIN_KEYS} for i, f in enumerate(ans['final']) if i in impl_fin}
     if (not ans['valid'] or not ans['complete'] or m_starts != i_starts or m_records != i_records
             or impl_fin != model_fin):
@@ -269,7 +337,8 @@ def run_input(ck, inp, tag):
     if kind == 'sequential':
         sequential_scenario(ck, inp['scn'], inp['scripts'], 4, tag)
     elif kind in ('parallel', 'parallel-ref'):
-        parallel_scenario(ck, inp['scn'], inp['scripts'], inp.get('cpu', 8), [inp.get('schedule') or []], tag)
+        parallel_scenario(ck, inp['scn'], inp['scripts'], inp.get('cpu', 8), [inp.get('schedule') or []], tag,
+                          local=inp.get('local', 'batch'))
     elif kind == 'free':
         free_running(ck, inp['scn'], inp['scripts'], inp.get('cpu', 8), tag)
 
@@ -279,11 +348,11 @@ def run(ck):
     rng = ck.rng
     ck.rule = ('%d scenarios of 2-5 runs (succeeding, flaky and retried, failing, failing at the last invocation; shared '
                'executables) x {batch, round-robin, random x %d recorded choice streams}; parallel scheduler with 2-12 '
-               'non-exclusive runs (some with exclusive ones), cpu_count 5/8/16 (2, 3, 6 worker threads), %s sampled release '
+               'non-exclusive runs (some with exclusive ones), batch / round-robin / random as thread-local scheduler, cpu_count 2/3/5/8/16 (1, 1, 2, 3, 6 worker threads), %s sampled release '
                'schedules under the thread controller, %s; free-running parallel sessions with a yielding data-file '
-               'object; scenarios with a 127 outcome for the recorded finding. non-trivial = more than one run, distinct by '
+               'object; a third of the sequential and half of the parallel scenarios have executor builds (shared) and suite builds (private), succeeding and failing; scenarios with a 127 outcome for the recorded finding. non-trivial = more than one run, distinct by '
                'scenario and schedule'
-               % ((36, 12, '~200', 'all interleavings of a 2-run scenario') if quick else
+               % ((36, 10, '~200', 'all interleavings of a 2-run scenario') if quick else
                   (110, 40, '~6000', 'all interleavings of 2-run scenarios and of a 3-run scenario (3^7 release schedules)')))
     for name, data in load_corpus(ck):
         ck.count('corpus')
@@ -291,7 +360,12 @@ def run(ck):
     # (1) sequential schedulers
     for i in range(36 if quick else 110):
         scn, scripts = gen_scenario(rng, 2, 5, False, with_127=(i % 9 == 8))
-        sequential_scenario(ck, scn, scripts, 12 if quick else 40, 'seq')
+        if i % 3 == 1:
+            add_builds(rng, scn)
+            ck.count('scenario-with-builds')
+            if scn['fail_builds']:
+                ck.count('scenario-with-failing-build')
+        sequential_scenario(ck, scn, scripts, 10 if quick else 40, 'seq')
     # (2) parallel, exhaustive for small scenarios
     small = [(2, 5)] if quick else [(2, 5), (2, 8), (3, 8)]
     for n, cpu in small:
@@ -310,9 +384,13 @@ def run(ck):
     n_scen, per = (18, 10) if quick else (150, 25)
     for i in range(n_scen):
         scn, scripts = gen_scenario(rng, 2, 12, True, with_127=(i % 9 == 8))
-        cpu = rng.choice([5, 8, 8, 16])
+        if i % 2 == 1:
+            add_builds(rng, scn)
+            ck.count('parallel-scenario-with-builds')
+        cpu = rng.choice([2, 3, 5, 8, 8, 16])
         schedules = [[rng.randrange(12) for _ in range(200)] for _ in range(per)]
-        parallel_scenario(ck, scn, scripts, cpu, schedules, 'par')
+        # the thread-local scheduler of the workers: batch, round-robin or random
+        parallel_scenario(ck, scn, scripts, cpu, schedules, 'par', local=['batch', 'round-robin', 'random'][i % 3])
     # (4) free running with yielding writes
     for i in range(6 if quick else 60):
         n = rng.randint(4, 10)
